@@ -203,6 +203,25 @@ func c06case(c *wk.Ctx, idx int, r *rand.Rand, pl c06plan, t *rngTee) {
 			forcedBy = "scripted crypto/rand (assumes zero padding of the RSA block; verified afterwards)"
 		}
 	}
+	// a server may offer several public keys; the client's one is first, in the middle, last or alone
+	offer := []string{"alone", "first-of-3", "middle-of-3", "last-of-3", "second-of-2"}[(idx/3)%5]
+	o1, o2 := int64(r.Uint64()), int64(r.Uint64())
+	srv.Tamper = func(f *refserver.HSFields) {
+		if f.Stage != "resPQ" {
+			return
+		}
+		good := f.Fingerprints[0]
+		switch offer {
+		case "first-of-3":
+			f.Fingerprints = []int64{good, o1, o2}
+		case "middle-of-3":
+			f.Fingerprints = []int64{o1, good, o2}
+		case "last-of-3":
+			f.Fingerprints = []int64{o1, o2, good}
+		case "second-of-2":
+			f.Fingerprints = []int64{o1, good}
+		}
+	}
 	srv.ChooseServerNonce = func() []byte { return serverNonce }
 	srv.ChoosePQ = func() (uint64, uint64) { return p, q }
 	srv.ChooseA = func() *big.Int { return new(big.Int).SetBytes(aBytes) }
@@ -239,7 +258,8 @@ func c06case(c *wk.Ctx, idx int, r *rand.Rand, pl c06plan, t *rngTee) {
 	} else if pl.Kind == "pq" {
 		tag = "pq/" + pl.PQKind
 	}
-	desc := fmt.Sprintf("[%s] nonce=%x server_nonce=%x new_nonce=%x p=%d q=%d", tag, nonce, serverNonce, newNonce, p, q)
+	desc := fmt.Sprintf("[%s] nonce=%x server_nonce=%x new_nonce=%x p=%d q=%d offered-keys=%s", tag, nonce, serverNonce, newNonce, p, q, offer)
+	c.Count("offered_keys."+offer, 1)
 	if !done {
 		if stalled, dump := isStalled(); stalled {
 			c.Viol("C06", idx, "stall/"+tag, "CreateConnection never returned and nothing can move: "+desc, dump)
